@@ -26,7 +26,7 @@ import (
 func init() {
 	Register(&Prop{
 		ID: "C11", Engine: "A", Quick: 8000, Thorough: 300000, Level: "exploration",
-		Rule: "each run = a pool (MaxConns 1..3, MinConns 0..2, lifetimes/idle times/health-check period of seconds) over the simulated dialer, 1..4 user goroutines each playing a drawn program over {Acquire, Do ok / server exception / connection reset / cancelled by deadline, Ping, sleep, Release once or 2-3 times, Pool.Do, Pool.Ping}, auto-responding reference servers that log which user's request arrived on which connection, dial failures, simulated seconds passing between steps, the health checker running, and a final Close; invariants are evaluated after every scheduler decision and over the recorded history; distinct = schedule digests; non-trivial = at least two users or a fault (reset, exception, cancel, dial failure, double release, expiry)",
+		Rule: "each run = a pool (MaxConns 1..3, MinConns 0..2, lifetimes/idle times/health-check period of seconds) over the simulated dialer, 1..4 user goroutines each playing a drawn program over {Acquire, Do ok / server exception / connection reset / cancelled by deadline, Ping, sleep, Release once or 2-3 times, Pool.Do, Pool.Ping}, auto-responding reference servers that log which user's request arrived on which connection, dial failures, Acquire calls that give up after 1 ms..2 s, connections whose Close reports an error, the holder's connection read from the handle when Acquire returns (a dead connection carries no request), simulated seconds passing between steps, the health checker running, and a final Close; invariants are evaluated after every scheduler decision and over the recorded history; distinct = schedule digests; non-trivial = at least two users or a fault (reset, exception, cancel, dial failure, double release, expiry)",
 		Run:  runC11,
 		// puddle runs destruction in goroutines of its own: a panic there kills
 		// the process, which the parent attributes to the run in progress
